@@ -17,6 +17,9 @@ BASE_OUT = ("NODE host=node.local;realm=realm.local;idle=5;dwa=3;cer=3;cea=3;rq=
 BASE_IN = BASE_OUT.replace("peer:peer2.x,realm.local,1,1,2,1,0", "peer:peer2.x,realm.local,0,0,2,1,0")
 OUT_KINDS = ("dial_refused", "dial_async_fail", "dial_rejected", "dial_established")
 BASE_NOADDR = BASE_OUT.replace("peer:peer2.x,realm.local,1,1,2,1,0", "peer:peer2.x,realm.local,1,1,2,0,0")   # persistent, no address
+BASE_MR = ("NODE host=node.local;realm=realm.local;idle=5;dwa=3;cer=3;cea=3;rq=4;"
+           "peer:peer1.x,realm.local,0,0,30,1,0,-,-,-,-;peer:peer2.x,other.realm,0,0,2,1,0,-,-,-,-;peer:peer3.x,third.realm,0,0,30,1,1,-,-,-,-;"
+           "app:4,1,0,b,0,0+1,extra.realm")
 BASE_T = BASE_IN.replace("app:4,1,0,b,0,0+1,-", "app:4,1,0,t,0,0+1,-")          # the same with a threading application
 T_KINDS = ("thread_req", "thread_req_raise")      # (a request whose handler returns no answer is not a completed transaction)
 
@@ -280,6 +283,12 @@ def run(res: Result, tier: str, seed: int):
     for name, fn in ks.items():
         for N in Ns + ([1000] if (tier != "quick" and name == "inbound_req") else []):
             scen.append((name, N, (BASE_OUT if name in OUT_KINDS else BASE_T if name in T_KINDS else BASE_NOADDR if name == "dial_no_address" else BASE_IN) + " | " + " | ".join(fn(N))))
+    # … and some kinds on a configuration whose routing table has the application under several realms (peers in two
+    # realms, an additional realm, a default peer in a realm of its own): the route lists are state too
+    for name in ("hard_write_error", "inbound_req", "conn_unknown", "second_conn_req"):
+        if name in ks:
+            for N in Ns:
+                scen.append((name + "@multirealm", N, BASE_MR + " | " + " | ".join(ks[name](N))))
     lines = [s for _, _, s in scen]
     reals = [run_real(l, budget=300) for l in lines]
     models = [m.split(" ## ") for m in run_driver(lines)]
